@@ -514,7 +514,27 @@ def no_error_after_wire_write(F, R):
     R.floor('C08.validate-before-write', 'shared/sink functions with a matched wire write', n, 6)
 
 
+def owed_recorded_last(F, R):
+    """The codec's "payload owed" counter (encoding_payload) is written only where the encode can no longer fail: from every
+    store into it inside Encoder::encodev no error exit is reachable. A PUBLISH refused after the store (over the maximum
+    packet size, a failing field encoder) appends nothing but leaves the encoder expecting payload: later chunks go on the
+    wire without a header and every packet fails with ExpectPayload."""
+    n = 0
+    for ver in ('v3', 'v5'):
+        b = F.one(r'^<%s::codec::codec::Codec as ntex_codec::Encoder>::encodev$' % ver)
+        sets = [bi for bi, t, ap in calls_on_field(b, r'Cell::<T>::(set|replace)$', 'encoding_payload')]
+        errs = {bi for bi, j, s in agg_sites(b, r'^std::result::Result$', 'Err') if s['lhs']['l'] == 0 and not place_proj(s['lhs'])}
+        errs |= {bi for bi, t in b.calls_to(r'::from_residual$') if t['dest']['l'] == 0}
+        for bi in sets:
+            n += 1
+            later = sorted(e for e in errs if e in b.reachable_after(bi))
+            R.ob('C08.stream-accounting', '%s|Codec::encodev|payload-owed-stored-after-the-last-failure-point' % ver, not later,
+                 'encoding_payload is stored on a path that can still end in an error: the refused packet writes nothing but the encoder keeps expecting its payload', b.loc(later[0]) if later else b.loc(bi))
+    R.floor('C08.stream-accounting', 'stores of the payload-owed counter in the codecs', n, 2)
+
+
 def run(F, R):
+    owed_recorded_last(F, R)
     no_error_after_wire_write(F, R)
     cg_ok = codec_guard(F, R)
     writers(F, R, cg_ok)
